@@ -648,6 +648,141 @@ mechanisms:
 	c10Finish(r, e, kind, cacheKind, ttls.String(), fmt.Sprintf("cert=%v/%v/%s", withCert, withChain, keyName), boundaryHit)
 }
 
+// --- scenario: OAuth2 server metadata discovery (RFC 7234 cache of the metadata endpoint) ----------------------------
+
+// The jwt authenticator resolves its key-set endpoint from a metadata document on every request; the only thing that may
+// save the call is the RFC 7234 cache of the metadata endpoint. Every answer of the metadata party carries its own,
+// pre-drawn freshness information, so a lifetime remembered from an earlier answer is visible.
+func c10MetadataScenario(r *simcore.Run) {
+	s := r.Src
+	kind := "metadata-discovery"
+	cacheKind := simcore.Pick(s, cacheKinds, "cache-kind")
+	ttls := drawTTLPair(s, "cache-ttl")
+	hcMode := simcore.Pick(s, []string{"unset", "enabled", "enabled", "disabled"}, "meta-http-cache")
+	defaultTTL := []time.Duration{0, secs(30), secs(300)}[s.Draw(3, "default-ttl")]
+	hc := ""
+	switch hcMode {
+	case "enabled":
+		hc = fmt.Sprintf("          http_cache:\n            enabled: true\n            default_ttl: %s\n", durYAML(defaultTTL))
+	case "disabled":
+		hc = "          http_cache:\n            enabled: false\n"
+	}
+	fresh := make([]httpFreshness, 4)
+	for i := range fresh {
+		fresh[i] = drawFreshness(s)
+	}
+	key := simkeys.FixtureKey(simcore.Pick(s, []string{"ec256", "rsa2048"}, "key"))
+	jwk := jose.JSONWebKey{Key: key.Public(), KeyID: "k1", Algorithm: string(simkeys.AlgFor(key)), Use: "sig"}
+	mech := fmt.Sprintf(`
+mechanisms:
+  authenticators:
+    - id: authn
+      type: jwt
+      config:
+        metadata_endpoint:
+          url: http://meta/.well-known/openid-configuration
+%s        assertions:
+          validity_leeway: 5s
+%s  finalizers:
+    - id: echo
+      type: header
+      config:
+        headers:
+          X-User: "{{ .Subject.ID }}"
+`, hc, ttls.proto.yaml("        "))
+	rules := fmt.Sprintf(c10Rules, "    - authenticator: authn"+ttls.stepConfig("cache_ttl")+"\n    - finalizer: echo")
+	r.Logf("scenario=%s cache=%s cache_ttl=%s http_cache=%s default_ttl=%s answers=%v", kind, cacheKind, ttls, hcMode, defaultTTL, fresh)
+	e, err := newEnv(r, cacheKind, mech, rules)
+	if err != nil {
+		r.Fail("infra", "build", "%v", err)
+		return
+	}
+	defer e.Close()
+	type contact struct {
+		at time.Duration
+		f  httpFreshness
+	}
+	var served []contact
+	e.net.HandleFunc("meta", func(w http.ResponseWriter, req *http.Request) {
+		f := fresh[len(served)%len(fresh)]
+		served = append(served, contact{time.Since(e.epoch), f})
+		r.Logf("  metadata party answers #%d at %s: %v", len(served), time.Since(e.epoch), f)
+		f.apply(w)
+		w.Header().Set("Content-Type", "application/json")
+		w.Write([]byte(`{"issuer":"http://meta","jwks_uri":"http://idp/jwks"}`))
+	})
+	body := simkeys.JWKSJSON(jwk)
+	e.net.HandleFunc("idp", func(w http.ResponseWriter, req *http.Request) {
+		w.Header().Set("Content-Type", "application/json")
+		w.Write(body)
+	})
+	defer simnetInstall(e)()
+	setFaultPlan(e, s, []int{0, 0, 15, 40}[s.Draw(4, "fault-rate")], "meta", "idp")
+	bounds := []int{1}
+	for _, f := range fresh {
+		if f.explicit && f.lifetimeS > 0 {
+			bounds = append(bounds, f.lifetimeS)
+		}
+	}
+	if hcMode == "enabled" && defaultTTL > 0 {
+		bounds = append(bounds, int(defaultTTL/time.Second))
+	}
+	times := instants(s, 3+s.Draw(10, "nreq"), bounds, 700)
+	var last *contact // the last answer of the metadata party that reached heimdall unaltered
+	boundaryHit := false
+	for _, at := range times {
+		bubble.At(e.epoch, at)
+		now := time.Now()
+		tok := simkeys.SignJWT(key, "k1", map[string]any{"iss": "http://meta", "sub": "alice", "iat": now.Unix() - 1, "exp": now.Unix() + 3600})
+		nServed, nCalls := len(served), len(e.net.Calls("meta"))
+		start := time.Since(e.epoch) // the metadata lookup is the first thing the authenticator does; a delayed key-set call ends the request much later
+		res := e.do("GET", "http://heimdall.local/res/1", map[string]string{"Authorization": "Bearer " + tok})
+		r.Logf("req %v", res)
+		calls := e.net.Calls("meta")[nCalls:]
+		for i, c := range calls {
+			// with the Duplicate fault the handler runs twice for one call and the second answer is delivered
+			if c.Served && !c.Fault.IsFailure() && c.Status == 200 && nServed+i < len(served) {
+				idx := len(served) - (len(calls) - i)
+				if idx < nServed {
+					idx = nServed + i
+				}
+				last = &served[idx]
+			}
+		}
+		if res.allowed && len(calls) == 0 {
+			r.Count("accepted-from-cache", 1)
+			t := start
+			if last == nil {
+				r.Fail("accepted-without-any-contact", kind, "accepted at %s although the metadata endpoint never answered", t)
+				break
+			}
+			age := t - last.at
+			f := last.f
+			switch {
+			case f.noStore:
+				r.Fail("reuse-of-unstorable-result", kind+"/no-store", "accepted at %s without contacting the metadata endpoint; its last answer (at %s) said %v", t, last.at, f)
+			case f.explicit && f.lifetimeS <= 0:
+				r.Fail("reuse-of-unstorable-result", kind+"/lifetime<=0", "accepted at %s without contacting the metadata endpoint; its last answer (at %s) had no positive freshness lifetime: %v", t, last.at, f)
+			case f.explicit && age > secs(f.lifetimeS):
+				r.Fail("reuse-beyond-validity", kind+"/explicit", "accepted at %s from a metadata document obtained at %s (age %s) whose freshness lifetime is %ds: %v", t, last.at, age, f.lifetimeS, f)
+			case !f.explicit && hcMode == "enabled" && defaultTTL == 0:
+				r.Fail("reuse-of-unstorable-result", kind+"/no-default", "accepted at %s without contact; the last answer (at %s) carried no freshness information and default_ttl is 0", t, last.at)
+			case !f.explicit && hcMode == "enabled" && age > defaultTTL:
+				r.Fail("reuse-beyond-validity", kind+"/default", "accepted at %s from a metadata document obtained at %s (age %s) without freshness information; default_ttl=%s", t, last.at, age, defaultTTL)
+			}
+			// hcMode unset: the built-in default lifetime is an implementation constant and is not judged; disabled: any reuse
+			// within an explicit lifetime would still be within what the statement allows
+			if f.explicit && f.lifetimeS > 0 && age > secs(f.lifetimeS)-secs(6) {
+				boundaryHit = true
+			}
+		}
+		if r.Failed() {
+			break
+		}
+	}
+	c10Finish(r, e, kind, cacheKind, ttls.String(), fmt.Sprintf("http=%s/%s", hcMode, defaultTTL), boundaryHit)
+}
+
 // --- scenario: finalizers handing out tokens --------------------------------------------------------------------------
 
 func c10JWTFinalizerScenario(r *simcore.Run) {
@@ -865,7 +1000,7 @@ func c10Finish(r *simcore.Run, e *env, kind, cacheKind, ttl, extra string, bound
 	}
 }
 
-var c10Scenarios = []string{"introspection", "generic-authn", "remote-authorizer", "contextualizer", "jwks-cert", "jwt-finalizer", "client-credentials"}
+var c10Scenarios = []string{"introspection", "generic-authn", "remote-authorizer", "contextualizer", "jwks-cert", "jwt-finalizer", "client-credentials", "metadata-discovery"}
 
 func c10Sim(r *simcore.Run) {
 	bubble.Run(r, func() {
@@ -875,6 +1010,8 @@ func c10Sim(r *simcore.Run) {
 			c10AuthnScenario(r, kind)
 		case "jwks-cert":
 			c10JWKSScenario(r)
+		case "metadata-discovery":
+			c10MetadataScenario(r)
 		case "jwt-finalizer":
 			c10JWTFinalizerScenario(r)
 		case "client-credentials":
